@@ -98,6 +98,7 @@ var propImports = map[string][]imp{
 		{"C01.12/limit-read-per-connection", "C16", "the receive limit a message is checked against is the one configured when its connection is accepted: a stale limit drops messages the property says are delivered", []string{"C16.11/limit-read-per-connection"}},
 	},
 	"C02": {
+		{"C02.18/carry-on", "C12", "PAIR admits the next peer once the first has gone: a listener keeps accepting whatever happened to an earlier connection attempt — a peer's failure (a hang-up during the handshake included) is never reported as 'endpoint closed', which is what ends the accept loop and the redial", []string{"C12.5/ErrClosed-means-closed", "C12.3/endpoint-usable"}},
 		{"C02.17/redial-timer", "C14", "a further connection attempt follows every loss: the redial timer is stopped and cleared only by the dialer's Close (a late attach notification that cancels it leaves the dialer silent for good, and the peer waiting for its turn is never admitted)", []string{"C14.13/timer-discipline|internal/core.dialer.redialer"}},
 		{"C02.16/framing", "C01", "each frame's length prefix is read completely before it is interpreted: a short read of the prefix turns the rest of the stream into messages nobody sent", []string{"C01.3/framing"}},
 		{"C02.15/no-peer-signal", "C18", "the 'ran out of peers' signal of PUSH is re-armed where it was raised: otherwise every send made after the last peer left and before the next one is admitted fails at once although fail-no-peers semantics only apply while there is no peer, and sends accepted later are refused", []string{"C18.4/fail-no-peers|xpush"}},
